@@ -1,5 +1,5 @@
 SPECIFICATION Spec
-CONSTANT MaxNow = 5
+CONSTANT MaxNow = 3
 CONSTANT MaxLevel = 5
 CONSTRAINT Bound
 VIEW View
